@@ -572,6 +572,19 @@ impl<'a> Parser<'a> {
         while !self.check(&TokenKind::RParen) && !self.is_at_end() {
             let param_start = self.current.span;
 
+            // TypeScript `this` parameter: `function f(this: T, a)` - a type annotation for
+            // `this`, not a parameter
+            if params.is_empty() && self.check(&TokenKind::This) && self.peek_is(&TokenKind::Colon)
+            {
+                self.advance();
+                self.advance();
+                self.parse_type_annotation()?;
+                if !self.match_token(&TokenKind::Comma) {
+                    break;
+                }
+                continue;
+            }
+
             // Parse parameter decorators (e.g., @inject param)
             let decorators = self.parse_decorators()?;
 
